@@ -239,9 +239,9 @@ def one_run(prog, exp, vn, mode, n, root, bindir):
 
 
 def viewer_kill_run(prog, exp, vn, delay_ms, root, bindir):
-    """the log viewer (the redo-log child of a top-level command) is a redo process too: kill it alone while the build runs.
-    The build has to go on as if nothing had happened (its writes to the viewer fail with EPIPE, which it ignores): the
-    command itself must end as the specification says for the history without any kill."""
+    """the log viewer (the redo-log child of a top-level command) is a redo process too: kill it alone while the build runs
+    (the builders' writes to it then fail with EPIPE).  As after any other kill, the next run must recover: exit status,
+    files, rows and edges as the specification says for the history without the kill, also after a later edit."""
     import threading
     v = variants(prog)[vn]
     hist = exp[vn]
@@ -253,45 +253,57 @@ def viewer_kill_run(prog, exp, vn, delay_ms, root, bindir):
         elif st['a'] == 'cmd':
             pj.run(argv_of(st), timeout=60)
     killed = []
-    stop = []
-
-    def hunter():
-        t0 = time.time()
-        while not stop and not killed:
-            for d in os.listdir('/proc'):
-                if not d.isdigit():
-                    continue
-                try:
-                    with open('/proc/%s/cmdline' % d, 'rb') as f:
-                        cl = f.read().split(b'\0')
-                    if os.path.basename(cl[0]) != b'redo-log':
-                        continue
-                    with open('/proc/%s/environ' % d, 'rb') as f:
-                        if ('VT_LOG=' + pj.vtlog).encode() not in f.read():
-                            continue
-                    if (time.time() - t0) * 1000 >= delay_ms:
-                        os.kill(int(d), 9)
-                        killed.append(int(d))
-                        return
-                except (OSError, IndexError):
-                    continue
-            time.sleep(0.001)
-    th = threading.Thread(target=hunter, daemon=True)
-    th.start()
     st = hist[k]
-    rc, so, se, started, to = pj.run(argv_of(st), timeout=60)
-    stop.append(1)
-    th.join()
+    pj.cmdno += 1
+    p = subprocess.Popen(argv_of(st), cwd=pj.dir, env=pj.env(), stdin=subprocess.DEVNULL, stdout=subprocess.PIPE,
+                         stderr=subprocess.PIPE, start_new_session=True)
+    t0 = time.time()
+    # the viewer is a direct child of the top-level command
+    while p.poll() is None and not killed and time.time() - t0 < 30:
+        try:
+            kids = open('/proc/%d/task/%d/children' % (p.pid, p.pid)).read().split()
+        except OSError:
+            kids = []
+        for c in kids:
+            try:
+                with open('/proc/%s/cmdline' % c, 'rb') as f:
+                    cl = f.read().split(b'\0')
+            except OSError:
+                continue
+            if os.path.basename(cl[0]) == b'redo-log' and (time.time() - t0) * 1000 >= delay_ms:
+                try:
+                    os.kill(int(c), 9)
+                    killed.append(int(c))
+                except OSError:
+                    pass
+                break
+        time.sleep(0.0005)
+    to = False
+    try:
+        so, se = p.communicate(timeout=60)
+    except subprocess.TimeoutExpired:
+        to = True
+        try:
+            os.killpg(p.pid, 9)
+        except ProcessLookupError:
+            pass
+        so, se = p.communicate()
+    pj.wait_quiet(p.pid)
     diffs = []
     if to:
         diffs.append('the command did not terminate after its log viewer was killed')
+    # (the command itself may fail: a viewer that dies while it starts up makes redo refuse to go on, exit 99; what the
+    # property demands is that the next run recovers)
+    rc, so, se, started, to = pj.run(argv_of(st), timeout=60)
+    if to:
+        diffs.append('recovery: command did not terminate')
     if rc != st['rc']:
-        diffs.append('exit status %s after the log viewer was killed, the specification says %s: %s' % (rc, st['rc'], se[-300:]))
+        diffs.append('recovery: exit status %s, the specification says %s: %s' % (rc, st['rc'], se[-300:]))
     try:
         snap = pj.snapshot()
-        diffs += [txt for (cat, txt) in pj.compare(snap, st['snap']) if cat in CATS or cat.split('.')[0] in CATS]
+        diffs += ['recovery: ' + txt for (cat, txt) in pj.compare(snap, st['snap']) if cat in CATS or cat.split('.')[0] in CATS]
     except Exception as ex:
-        diffs.append('state not readable: %r' % ex)
+        diffs.append('recovery: state not readable: %r' % ex)
     for st2 in hist[k + 1:]:
         if st2['a'] == 'write':
             pj.write_user(st2['n'], st2['v'])
